@@ -22,6 +22,7 @@ VARIANTS = [
 def one(i):
   from vf import worker
 
+  worker._install_arena_cache()
   worker._setup_warp("release")
   import mujoco
   import mujoco_warp as mjw
